@@ -434,6 +434,8 @@ def parse_instr(line):
         normal = unwind = None
         if op == "invoke":
             while p.peek()[1] != "to":
+                if p.peek()[0] is None:
+                    raise ParseError("invoke without 'to': " + line)
                 p.next()
             p.next()
             assert p.next()[1] == "label"
@@ -649,7 +651,14 @@ class Module:
                 cur = str(cnt)
                 blocks[cur] = []
                 order.append(cur)
-            blocks[cur].append(s)
+            b = blocks[cur]
+            # continuation lines: invoke ... \n to label, landingpad clauses, multi-line switch
+            if b and (s.startswith("to label") or s == "cleanup" or s.startswith("catch ")
+                      or s.startswith("filter ")
+                      or (b[-1].startswith("switch ") and b[-1].count("[") > b[-1].count("]"))):
+                b[-1] = b[-1] + " " + s
+                continue
+            b.append(s)
         fn = Function(name, params, rty, blocks, order)
         fn.parsed = {}
         self._fcache[name] = fn
